@@ -212,11 +212,16 @@ pub fn run(tier: Tier) -> Report {
         |push| {
             let mut i = 0usize;
             family(&mut |g| {
-                // quick: every grammar for one target chosen round-robin (all four targets are
-                // covered for every status vector), thorough: every grammar x every target
                 push((g, i));
                 i += 1;
             });
+            // deep definition chains / DAGs: everything is defined and used, no warning expected
+            for n in 2..=5 {
+                crate::fam::def_dags(n, &mut |g| {
+                    push((g, i));
+                    i += 1;
+                });
+            }
         },
         || Acc { samples: Some(Samples::new(4)), ..Default::default() },
         |acc, (g, i): (G, usize)| {
@@ -249,7 +254,7 @@ pub fn run(tier: Tier) -> Report {
     rep.cov(
         "rule",
         J::s(format!(
-            "exhaustive reference structures: names A,B,C each with status in {{undefined, plain, @bash, @fish, plain+@bash, plain+@zsh}} (6^3) x every subset of {{A,B,C,U,_,PATH}} referenced by the call variant (top level, inside a word, under |) x every subset of the acyclic references A->{{B,C,U}}, B->{{C,DIRECTORY}}, C->{{U}} in plain bodies x statement order; targets: {}. Oracle R8 by plain reachability; per case the three warning maps, the text under every warning span, and byte-equality of the script after deleting everything warned about (and other-shell definitions). distinct = distinct (grammar text, target).",
+            "exhaustive reference structures: names A,B,C each with status in {{undefined, plain, @bash, @fish, plain+@bash, plain+@zsh}} (6^3) x every subset of {{A,B,C,U,_,PATH}} referenced by the call variant (top level, inside a word, under |) x every subset of the acyclic references A->{{B,C,U}}, B->{{C,DIRECTORY}}, C->{{U}} in plain bodies x statement order; plus every definition DAG on 2..5 definitions in 3 statement orders (no warning expected); targets: {}. Oracle R8 by plain reachability; per case the three warning maps, the text under every warning span, and byte-equality of the script after deleting everything warned about (and other-shell definitions). distinct = distinct (grammar text, target).",
             if stride == 1 { "all four per grammar" } else { "one per grammar, round-robin (all four per status vector)" }
         )),
     );
